@@ -212,7 +212,7 @@ class Resolver:
                         elif canon in ("builtins.dict", "builtins.list", "builtins.set", "builtins.str", "builtins.int",
                                        "collections.defaultdict", "collections.ChainMap"):
                             out.add(BUILTIN_TYPE)
-                        elif canon:
+                        elif canon and (canon.startswith("pathlib.") or canon in ("io.TextIOWrapper", "socket.socket")):
                             out.add(("ext", canon))
             return out
         if isinstance(expr, ast.Call):
@@ -353,6 +353,15 @@ class Resolver:
                             out.append((m, ()))
                 return out
             return [(m, ()) for m in idx.methods_named(expr.attr)]
+        if isinstance(expr, ast.Subscript):
+            canon = idx.canon(expr.value, expr._module) if isinstance(expr.value, (ast.Name, ast.Attribute)) else None
+            obj = idx.lookup(canon) if canon else None
+            if isinstance(obj, tuple) and obj[0] == "const" and isinstance(obj[2], ast.Dict):
+                out = []
+                for v in obj[2].values:
+                    out.extend(self.callable_values(v, None, {}, depth + 1))
+                return out
+            return []
         if isinstance(expr, ast.Lambda):
             return []
         return []
@@ -649,8 +658,14 @@ class Resolver:
                                         if m is not None:
                                             targets.append(m)
                         else:
-                            for mn in ("__enter__", "__exit__"):
-                                targets.extend(self.index.methods_named(mn))
+                            ce = item.context_expr
+                            ext = False
+                            if isinstance(ce, ast.Call) and isinstance(ce.func, (ast.Name, ast.Attribute)):
+                                cn = self.index.canon(ce.func, ce._module)
+                                ext = cn is not None and not cn.startswith("gwf.")
+                            if not ext:
+                                for mn in ("__enter__", "__exit__"):
+                                    targets.extend(self.index.methods_named(mn))
                         for m in targets:
                             stack.append((m, {}, chain + (m.key,)))
                 if isinstance(n, ast.Call):
